@@ -43,6 +43,16 @@ def p_roundtrip(s):
     for how, txt in ways.items():
         if txt != p:
             return '%s of %r gives %r, str() gives %r' % (how, s, txt, p)
+    # a version derived from a printed one prints its own parts
+    try:
+        import attr
+        for ch in ({'revision': '2'}, {'upstream': '9.9'}) + (({'epoch': v.epoch + 1},) if v.epoch < 10 ** 9 else ()):
+            w = attr.evolve(v, **ch)
+            fresh = Version(epoch=w.epoch, upstream=w.upstream, revision=w.revision)
+            if str(w) != str(fresh) or Version.from_string(str(w)) != w:
+                return 'attr.evolve(%r, %r) prints %r; a version built from the same parts prints %r' % (s, ch, str(w), str(fresh))
+    except (TypeError, attr.exceptions.NotAnAttrsClassError):
+        pass
     v3 = pickle.loads(pickle.dumps(v))
     if not (v3 == v) or hash(v3) != hash(v) or v3.tuple() != v.tuple() or v3.compare(v) != 0:
         return 'a pickled and reloaded %r is not the same version' % s
